@@ -111,6 +111,10 @@ func init() {
 				{File: "internal/agent/icmp.go", Old: "\t\"net\"\n\t\"sync\"\n", New: "\t\"net\"\n\t\"slices\"\n\t\"sync\"\n"},
 				{File: "internal/agent/icmp.go", Old: "// CreateICMPSession implements socks5.ICMPHandler.", New: "func pathBeyond(path []identity.AgentID, nextHop identity.AgentID) []identity.AgentID {\n\ti := slices.Index(path, nextHop)\n\tif i+1 >= len(path) {\n\t\treturn nil\n\t}\n\treturn slices.Clone(path[i+1:])\n}\n\n// CreateICMPSession implements socks5.ICMPHandler."},
 			}},
+			{Name: "first-seen advertisement dropped when older than the newest sequence remembered for its origin (seed C12-e)", ExpectRule: "C12.R6", ExpectKey: "HandleRouteAdvertise", Edits: []Edit{
+				{File: "internal/flood/flood.go", Old: "\tseenCache map[AdvertisementKey]*SeenAdvertisement\n", New: "\tseenCache map[AdvertisementKey]*SeenAdvertisement\n\tnewestSeen map[identity.AgentID]uint64\n"},
+				{File: "internal/flood/flood.go", Old: "\tcacheSize := len(f.seenCache)\n\tf.mu.Unlock()\n", New: "\tcacheSize := len(f.seenCache)\n\tif f.newestSeen == nil {\n\t\tf.newestSeen = map[identity.AgentID]uint64{}\n\t}\n\tstale := sequence < f.newestSeen[originAgent]\n\tif !stale {\n\t\tf.newestSeen[originAgent] = sequence\n\t}\n\tf.mu.Unlock()\n\tif stale {\n\t\treturn false\n\t}\n"},
+			}},
 			{Name: "rewrite: if-chain dispatch entry, swapped comparison", Edits: []Edit{
 				{File: "internal/agent/agent.go", Old: "func (a *Agent) processFrame(peerID identity.AgentID, frame *protocol.Frame) {\n\tswitch frame.Type {\n\tcase protocol.FrameStreamOpen:\n\t\ta.handleStreamOpen(peerID, frame)\n", New: "func (a *Agent) processFrame(peerID identity.AgentID, frame *protocol.Frame) {\n\tif protocol.FrameStreamOpen == frame.Type {\n\t\ta.handleStreamOpen(peerID, frame)\n\t\treturn\n\t}\n\tswitch frame.Type {\n"},
 			}},
@@ -1206,6 +1210,7 @@ func runC12(p *kit.Program, r *kit.Report) {
 
 	// ---------------- R6
 	nSkip := 0
+	mutableFlds := g4MutableFlooderFields(cx)
 	for _, h := range cx.handlers {
 		d := c11FindDedup(cx, h)
 		if d == nil {
@@ -1224,10 +1229,19 @@ func runC12(p *kit.Program, r *kit.Report) {
 			for _, c := range g4SkipConds(cx, h, d, sk, false) {
 				deps = append(deps, g4PerCopyDeps(cx, h, d, c.v)...)
 			}
+			// remembered state other than this handler's (origin, number) seen cache — e.g. a per-origin
+			// high-water mark of sequences — is set by OTHER advertisements (replays are numbered from
+			// foreign counters: C14.R1), so giving up on a first-seen advertisement because of it
+			// starves late joiners
+			for _, c := range g4SkipConds(cx, h, d, sk, false) {
+				for _, m := range g4MutableStateDeps(cx, mutableFlds, c.v, d.field) {
+					deps = append(deps, "remembered flooder state "+m)
+				}
+			}
 			deps = c12Uniq(deps)
 			ok := len(deps) == 0 || g4UndoesMark(cx, sk)
 			r.Decide(ok, "C12.R6", key, pos,
-				"does not depend on per-copy data (or takes the seen mark back)",
+				"does not depend on per-copy data or remembered state (or takes the seen mark back)",
 				"an announcement already recorded as seen is dropped depending on "+strings.Join(deps, ", ")+": a copy that fails this test marks the (origin, sequence) as seen, and the copy that would pass it arrives later and is discarded as a duplicate — the route is never learned although a valid path exists")
 		}
 	}
